@@ -35,26 +35,31 @@ MANIFEST = {
             "C13_merge_apply_partial (C = A), C13_merge_apply_partial_disjoint (no top-level root of diff(B,C) meets one of "
             "diff(A,B)), C13_merge_apply_partial_mixed (every top-level identity touched by both diffs is back at its state in A; "
             "both former are instances; both merge options), C13_merge_apply_partial_cells (WITHOUT LYD_DIFF_MERGE_DEFAULTS: the "
-            "top-level roots that meet cancel or are operations on a leaf in the cells replace + replace, create + replace, delete "
-            "+ create); Examples C13_merge_undo_example, C13_merge_disjoint_example, C13_merge_mixed_example, "
-            "C13_merge_cells_example. NOT proved: the other leaf cells, non-cancelling cells of inner nodes / list instances (none "
-            "+ none with recursion), cells below the top level; with LYD_DIFF_MERGE_DEFAULTS the law is false (known finding "
-            "merge-defaults-opt-delete-create). Tie (T2 dtree-C13, driver lyx): the extracted models of lyd_diff_reverse_all and "
-            "lyd_diff_merge_all (whole merge table, redundancy removal, both merge options) must print the same reversed / merged "
-            "diff trees and patched trees as libyang on generated triples built to hit every cell (leaves with own and typedef "
-            "defaults). ORACLE level only (implementation alone): uord-reverse, diff-reverse / diff-uord-reverse (reverse, merge, "
-            "merge-undo on generated trees; merge only without user-ordered / key-less lists), difftree-laws-C13 (dump equality on "
-            "the T2 triples), difftree-kinds-C13 (driver t_c14x: reverse and merge with anydata / anyxml values of every "
-            "representation, metadata, opaque nodes; known deviations computed exactly per case), difftree-mergeopts-C13 (the "
-            "composition law by dump equality for both values of LYD_DIFF_MERGE_DEFAULTS on diffs made with LYD_DIFF_DEFAULTS, and "
-            "for diffs made without it only on triples without default nodes), difftree-uord-movechange-C13 (one instance of a "
-            "user-ordered keyed list moved or created AND changed inside, both diff option settings), difftree-regress-C13 (drivers "
-            "lyx and t_c14x). Known findings these oracles attribute (status known): uord-reverse (only when the diff deletes a "
-            "user-ordered instance or moves two instances of one list), uord-empty-anchor-reverse, dupinst-reverse, "
-            "reverse-any-string, diff-ignores-metadata-c13, diff-ignores-opaque-c13, merge-defaults-opt-delete-create. Fixed in "
-            "libyang, a recurrence is a violation: merge-npcont-dflt 2dd55cd, uord-move-state-subtree-reverse 99529e5, "
-            "any-empty-orig-value 05a4858, reverse-any-same-text bd6fa8c, merge-any-replace-delete e592b93, merge-any-delete-create "
-            "eaa6a18, merge-opaque 4b5ac3f, uord-apply-move-first-sibling a54f28a.",
+            "top-level roots that meet cancel or are operations on a leaf in one of the cells (diff(A,B) op + diff(B,C) op) replace "
+            "+ replace, create + replace, create + none, replace + none, replace + delete, delete + create - hypothesis leaf_cell, "
+            "stated on the two diffs; the met root is replaced in place by the merged one or removed); Examples "
+            "C13_merge_undo_example, C13_merge_disjoint_example, C13_merge_mixed_example, C13_merge_cells_example, "
+            "C13_merge_cells_example2, C13_merge_cells_seed_regression (class of seeded change C13-4: the default flag of the "
+            "second diff reaches a created leaf). NOT proved: the leaf cells none(flag) + replace and none(flag) + delete (the "
+            "merged node is not an Sp diff node: no orig-value / a stale flag; applying it still gives C in T2), non-cancelling "
+            "cells of inner nodes / list and leaf-list instances (none + none with recursion), cells below the top level; with "
+            "LYD_DIFF_MERGE_DEFAULTS the law is false (known finding merge-defaults-opt-delete-create). Tie (T2 dtree-C13, driver "
+            "lyx): the extracted models of lyd_diff_reverse_all and lyd_diff_merge_all (whole merge table, redundancy removal, both "
+            "merge options) must print the same reversed / merged diff trees and patched trees as libyang on generated triples "
+            "built to hit every cell (leaves with own and typedef defaults). ORACLE level only (implementation alone): "
+            "uord-reverse, diff-reverse / diff-uord-reverse (reverse, merge, merge-undo on generated trees; merge only without "
+            "user-ordered / key-less lists), difftree-laws-C13 (dump equality on the T2 triples), difftree-kinds-C13 (driver "
+            "t_c14x: reverse and merge with anydata / anyxml values of every representation, metadata, opaque nodes; known "
+            "deviations computed exactly per case), difftree-mergeopts-C13 (the composition law by dump equality for both values of "
+            "LYD_DIFF_MERGE_DEFAULTS on diffs made with LYD_DIFF_DEFAULTS, and for diffs made without it only on triples without "
+            "default nodes), difftree-uord-movechange-C13 (one instance of a user-ordered keyed list moved or created AND changed "
+            "inside, both diff option settings), difftree-regress-C13 (drivers lyx and t_c14x). Known findings these oracles "
+            "attribute (status known): uord-reverse (only when the diff deletes a user-ordered instance or moves two instances of "
+            "one list), uord-empty-anchor-reverse, dupinst-reverse, reverse-any-string, diff-ignores-metadata-c13, "
+            "diff-ignores-opaque-c13, merge-defaults-opt-delete-create. Fixed in libyang, a recurrence is a violation: "
+            "merge-npcont-dflt 2dd55cd, uord-move-state-subtree-reverse 99529e5, any-empty-orig-value 05a4858, "
+            "reverse-any-same-text bd6fa8c, merge-any-replace-delete e592b93, merge-any-delete-create eaa6a18, merge-opaque "
+            "4b5ac3f, uord-apply-move-first-sibling a54f28a.",
     "note": "Modelled, not verified: the Coq models are hand transcriptions of the C code, tied to it only by T2 on generated "
             "inputs. List level: lyd_diff_reverse_all and lyd_diff_apply_all (lyd_diff_insert with the *first_node update of "
             "a54f28a) restricted to one user-ordered leaf-list. Tree level (slice difftree): lyd_diff_reverse_all (incl. "
